@@ -457,13 +457,21 @@ def class_change(ctx, P, iters):
         # structural: random_choice(NAMES, [self.class_change[TOK.previous_class][v] for v in NAMES]) with the same NAMES (the comprehension variable is free)
         names_ = "self.simulation.network.customer_class_names"
         draw_ok = False
-        for c_ in ast.walk(rules.inline_locals(fn, fn)):
-            if isinstance(c_, ast.Call) and call_name(c_) == "random_choice" and len(c_.args) == 2 and not c_.keywords and unparse(c_.args[0]) == names_ \
-                    and isinstance(c_.args[1], ast.ListComp) and len(c_.args[1].generators) == 1:
-                g_ = c_.args[1].generators[0]
-                if isinstance(g_.target, ast.Name) and unparse(g_.iter) == names_ and not g_.ifs \
-                        and unparse(c_.args[1].elt).replace(" ", "") == "self.class_change[%s.previous_class][%s]" % (tok, g_.target.id):
-                    draw_ok = True
+        fn_il = rules.inline_locals(fn, fn)
+        for c_ in ast.walk(fn_il):
+            if isinstance(c_, ast.Call) and call_name(c_) == "random_choice" and len(c_.args) == 2 and not c_.keywords and unparse(c_.args[0]) == names_:
+                probs = c_.args[1]
+                if isinstance(probs, ast.Name):
+                    # the row of probabilities named once, after previous_class was set (it reads it), then handed to the draw
+                    ds_ = [y for y in ast.walk(fn_il) if isinstance(y, ast.Assign) and any(isinstance(t, ast.Name) and t.id == probs.id for t in y.targets)]
+                    prev_ = [y for y in ast.walk(fn_il) if isinstance(y, ast.Assign) and unparse(y.targets[0]) == tok + ".previous_class"]
+                    if len(ds_) == 1 and prev_ and scans.precedes(fn_il, prev_[0], ds_[0]):
+                        probs = ds_[0].value
+                if isinstance(probs, ast.ListComp) and len(probs.generators) == 1:
+                    g_ = probs.generators[0]
+                    if isinstance(g_.target, ast.Name) and unparse(g_.iter) == names_ and not g_.ifs \
+                            and unparse(probs.elt).replace(" ", "") == "self.class_change[%s.previous_class][%s]" % (tok, g_.target.id):
+                        draw_ok = True
         if not draw_ok or ("%s.previous_class=%s.customer_class" % (tok, tok)) not in s:
             ctx.violation(ob, "R2.priority-remap", "%s.change_customer_class" % cls.name, "random_choice(class names, row of the class-change matrix)", "class-draw",
                           "the new class must be drawn from the class names with the probabilities of the current class's row, in the same order", loc(fn))
